@@ -49,42 +49,26 @@ Lemma mspec_run {A} (P : cmd -> Prop) (m : CM A) Q rs :
   mspec P m Q -> Forall P (c_log (fst (m (mk_clk rs [])))).
 Proof. intros H. apply (H (mk_clk rs [])). constructor. Qed.
 
-(** ---- float facts used below ---- *)
-Lemma add_nan_l x y : FloatBits.is_nan x = true -> FloatBits.is_nan (x +. y) = true.
+(** clamp(-b, b) of anything, if finite, is within [-b, b] *)
+Lemma fclamp_abs_le x b r :
+  is_fin b = true -> fclamp x (-. b) b = Some r -> is_fin r = true -> (fabs r <=. b) = true.
 Proof.
-  rewrite !is_nan_equiv. unfold P2B. rewrite FP.add_equiv.
-  destruct (FP.Prim2B x); try discriminate. reflexivity.
-Qed.
-
-Lemma zero_cmd_ok b : bound_ok b -> freq_cmd_ok b fzero.
-Proof.
-  intros Hb. right. split; [reflexivity|].
-  destruct (bound_ok_R b Hb) as (H0 & _ & Hnf & Hns & _).
-  apply R_leb_true; [reflexivity | exact Hnf |].
-  rewrite FR_abs, FR_zero, Rabs_R0, Hns.
-  eapply Rle_trans; [| apply succ_ge_id]. lra.
-Qed.
-
-(** F12, positive half: whatever the error term, a command computed from an
-    admissible current frequency is admissible: NaN, or finite and within
-    next_up(bound). *)
-Lemma freq_command_ok b cur err :
-  bound_ok b -> freq_cmd_ok b cur -> freq_cmd_ok b (cur +. clamp_adjustment cur err b).
-Proof.
-  intros Hb [Hn | [Hf Hle]].
-  - left. now apply add_nan_l.
-  - unfold clamp_adjustment.
-    destruct (clamp_cmd_partial cur err b Hb Hf Hle) as [[H _] | H]; [left | right]; exact H.
-Qed.
-
-(** ... and it is NaN only if the error term is NaN (or the current frequency already was) *)
-Lemma freq_command_nan b cur err :
-  bound_ok b -> is_fin cur = true -> (fabs cur <=. PrimFloat.next_up b) = true ->
-  FloatBits.is_nan (cur +. clamp_adjustment cur err b) = true -> FloatBits.is_nan err = true.
-Proof.
-  intros Hb Hf Hle Hn. unfold clamp_adjustment in Hn.
-  destruct (clamp_cmd_partial cur err b Hb Hf Hle) as [[_ H] | [H _]]; [exact H|].
-  apply fin_not_nan in H. congruence.
+  intros Hb Hc Hr. unfold fclamp in Hc.
+  destruct (-. b <=. b) eqn:Hbb; [|discriminate]. inversion Hc as [Hc']; clear Hc.
+  assert (Hnb : is_fin (-. b) = true) by now rewrite is_fin_opp.
+  apply leb_true_R in Hbb; auto. rewrite FR_opp in Hbb.
+  assert (HB : (0 <= FR b)%R) by lra.
+  assert (Goal : forall g, is_fin g = true -> (Rabs (FR g) <= FR b)%R -> (fabs g <=. b) = true).
+  { intros g Hg Hle. apply R_leb_true; [now rewrite is_fin_abs | auto | now rewrite FR_abs]. }
+  destruct (x <. -. b) eqn:E1.
+  - destruct (b <. -. b) eqn:E2; subst r.
+    + apply Goal; auto. rewrite Rabs_pos_eq; lra.
+    + apply Goal; auto. rewrite FR_opp, Rabs_Ropp, Rabs_pos_eq; lra.
+  - destruct (b <. x) eqn:E2; subst r.
+    + apply Goal; auto. rewrite Rabs_pos_eq; lra.
+    + apply Goal; auto.
+      apply ltb_false_R in E1; auto. apply ltb_false_R in E2; auto. rewrite FR_opp in E1.
+      apply Rabs_le. lra.
 Qed.
 
 (** ---- destructing successful runs of outcome-valued code ---- *)
@@ -99,169 +83,179 @@ Ltac ok_inv H :=
   | Panic _ = Ok _ => discriminate H
   end).
 
-(** ---- C13: the Kalman servo's frequency commands ---- *)
-Section KalmanInv.
+
+(** ---- C13: the Kalman servo's frequency commands (code after fix 4d80470) ---- *)
+Section KalmanExact.
   Variable exp_fn : float -> float.
   Variable dbg : bool.
   Variable cfg : kcfg.
-  Hypothesis Hb : bound_ok (c_max_freq_offset cfg).
   Let b := c_max_freq_offset cfg.
 
-  (* what a logged command must satisfy; steps are unconstrained here *)
-  Definition cmdP (c : cmd) : Prop :=
-    match c with SetFreq f => freq_cmd_ok b f | StepClock _ => True end.
-  (* invariant: the remembered current frequency is an admissible command *)
-  Definition KInv (s : kstate) : Prop :=
-    match k_cur s with Some cur => freq_cmd_ok b cur | None => True end.
+  (* the exact property: finite and within the configured bound; steps unconstrained here *)
+  Definition cmdP_exact (c : cmd) : Prop :=
+    match c with
+    | SetFreq f => is_fin f = true /\ (fabs f <=. b) = true
+    | StepClock _ => True
+    end.
 
-  Lemma wander_score_update_cur s u p a s' :
-    wander_score_update exp_fn cfg s u p a = Ok s' -> k_cur s' = k_cur s.
-  Proof. unfold wander_score_update. intros H. ok_inv H; reflexivity. Qed.
+  Hypothesis Hbf : is_fin b = true.
+  Hypothesis Hb0 : (fzero <=. b) = true.
 
-  Lemma update_wander_cur s m s' :
-    update_wander exp_fn dbg cfg s m = Ok s' -> k_cur s' = k_cur s.
+  Lemma change_frequency_spec s t : mspec cmdP_exact (change_frequency dbg cfg s t) (fun _ => True).
   Proof.
-    unfold update_wander. intros H.
-    destruct (base_progress dbg cfg (k_wan s) (m_time m) (k_wander s)) as [w|] eqn:Ew; [|discriminate H].
-    simpl in H.
-    match type of H with obind ?x _ = _ => destruct x as [s1|] eqn:E1; [|discriminate H] end.
-    simpl in H.
-    match type of H with obind ?x _ = _ => destruct x as [s2|] eqn:E2; [|discriminate H] end.
-    simpl in H.
-    match type of H with obind ?x _ = _ => destruct x as [nh|] eqn:E3; [|discriminate H] end.
-    simpl in H. inversion H; subst; clear H.
-    assert (H1 : k_cur s1 = k_cur s).
-    { destruct (m_sync m).
-      - destruct (base_predict cfg w H_SYNC). apply wander_score_update_cur in E1. exact E1.
-      - inversion E1. reflexivity. }
-    assert (H2 : k_cur s2 = k_cur s1).
-    { destruct (m_dly m).
-      - destruct (base_predict cfg (k_wan s1) H_DELAY). apply wander_score_update_cur in E2. exact E2.
-      - inversion E2. reflexivity. }
-    rewrite <- H1, <- H2.
-    destruct (k_score s2 <? nh); simpl;
-    match goal with |- context [if ?c then _ else _] => destruct c end; reflexivity.
-  Qed.
-
-  Lemma ensure_freq_init_spec s : KInv s -> mspec cmdP (ensure_freq_init s) KInv.
-  Proof.
-    intros Hs. unfold ensure_freq_init. destruct (k_cur s) eqn:E.
-    - apply mspec_ret; exact Hs.
-    - eapply mspec_bind.
-      + apply (mspec_call cmdP (SetFreq fzero) (fun _ => True)); [apply zero_cmd_ok, Hb | auto].
-      + intros [t|] _; apply mspec_ret.
-        * unfold KInv, set_cur; simpl. apply zero_cmd_ok, Hb.
-        * exact Hs.
-  Qed.
-
-  Lemma change_frequency_spec s t : KInv s -> mspec cmdP (change_frequency dbg cfg s t) KInv.
-  Proof.
-    intros Hs. unfold change_frequency. unfold KInv in Hs. destruct (k_cur s) as [cur|] eqn:E.
-    2:{ apply mspec_ret. unfold KInv. now rewrite E. }
-    pose proof (freq_command_ok b cur (t -. base_freq_offset (k_run s) *. c_1e6) Hb Hs) as Hf.
+    unfold change_frequency, freq_command. destruct (k_cur s) as [cur|]; [|apply mspec_ret; exact I].
+    fold b. destruct (fclamp _ (-. b) b) as [f|] eqn:Ef; [|apply mspec_lift; auto].
+    destruct (is_fin f) eqn:Ff; [|apply mspec_ret; exact I].
     eapply mspec_bind.
-    - apply (mspec_call cmdP _ (fun _ => True)); [exact Hf | auto].
-    - intros [time|] _.
-      + eapply mspec_bind; [apply mspec_lift with (Q := fun _ => True); auto|]. intros run _.
-        eapply mspec_bind; [apply mspec_lift with (Q := fun _ => True); auto|]. intros wan _.
-        apply mspec_ret. unfold KInv, set_cur; simpl. exact Hf.
-      + apply mspec_ret. unfold KInv. now rewrite E.
-  Qed.
-
-  Lemma kalman_step_spec s off : KInv s -> mspec cmdP (kalman_step dbg s off) KInv.
-  Proof.
-    intros Hs. unfold kalman_step.
-    eapply mspec_bind; [apply mspec_lift with (Q := fun _ => True); auto|]. intros d _.
-    eapply mspec_bind; [apply (mspec_call cmdP _ (fun _ => True)); simpl; auto|].
-    intros [t|] _.
-    - eapply mspec_bind; [apply mspec_lift with (Q := fun _ => True); auto|]. intros run _.
+    - apply (mspec_call cmdP_exact (SetFreq f) (fun _ => True)); [|auto].
+      split; [exact Ff | eapply fclamp_abs_le; eauto].
+    - intros [time|] _; [|apply mspec_ret; exact I].
+      eapply mspec_bind; [apply mspec_lift with (Q := fun _ => True); auto|]. intros run _.
       eapply mspec_bind; [apply mspec_lift with (Q := fun _ => True); auto|]. intros wan _.
-      apply mspec_ret. exact Hs.
-    - apply mspec_ret. exact Hs.
+      apply mspec_ret. exact I.
   Qed.
 
-  Lemma kalman_steer_spec s :
-    KInv s -> mspec cmdP (kalman_steer dbg cfg s) (fun r => KInv (fst r)).
+  Lemma zero_exact : cmdP_exact (SetFreq fzero).
   Proof.
-    intros Hs. unfold kalman_steer.
-    destruct (fabs (base_offset (k_run s)) <. dur_seconds (c_step_threshold cfg)).
-    - eapply mspec_bind; [apply mspec_lift with (Q := fun _ => True); auto|]. intros t _.
-      eapply mspec_bind; [apply change_frequency_spec; exact Hs|]. intros s' Hs'.
-      eapply mspec_bind; [apply mspec_lift with (Q := fun _ => True); auto|]. intros md _.
-      apply mspec_ret. exact Hs'.
-    - eapply mspec_bind; [apply kalman_step_spec; exact Hs|]. intros s' Hs'.
-      eapply mspec_bind; [apply mspec_lift with (Q := fun _ => True); auto|]. intros md _.
-      apply mspec_ret. exact Hs'.
+    split; [reflexivity|]. apply R_leb_true; [reflexivity | exact Hbf |].
+    rewrite FR_abs, FR_zero, Rabs_R0.
+    pose proof (leb_true_R _ _ is_fin_zero Hbf Hb0) as H. rewrite FR_zero in H. exact H.
   Qed.
 
-  Lemma absorb_with_spec s h z : KInv s -> mspec cmdP (absorb_with cfg s h z) KInv.
+  Lemma ensure_freq_init_spec s : mspec cmdP_exact (ensure_freq_init s) (fun _ => True).
   Proof.
-    intros Hs. unfold absorb_with.
-    eapply mspec_bind; [apply ensure_freq_init_spec; exact Hs|]. intros s' Hs'.
-    eapply mspec_bind; [apply mspec_lift with (Q := fun _ => True); auto|]. intros v _.
-    apply mspec_ret. exact Hs'.
-  Qed.
-
-  Lemma kalman_measurement_spec s m :
-    KInv s -> mspec cmdP (kalman_measurement exp_fn dbg cfg s m) (fun r => KInv (fst r)).
-  Proof.
-    intros Hs. unfold kalman_measurement.
-    destruct (negb (base_after_filter_time (k_run s) (m_time m))).
-    { apply mspec_ret. exact Hs. }
-    eapply mspec_bind; [apply mspec_lift with (Q := fun _ => True); auto|]. intros est _.
+    unfold ensure_freq_init. destruct (k_cur s); [apply mspec_ret; exact I|].
     eapply mspec_bind.
-    { apply mspec_lift with (Q := fun s2 => KInv s2).
-      intros s2 H2. apply update_wander_cur in H2. unfold KInv. rewrite H2. exact Hs. }
-    intros s2 Hs2.
+    - apply (mspec_call cmdP_exact (SetFreq fzero) (fun _ => True)); [apply zero_exact | auto].
+    - intros [t|] _; apply mspec_ret; exact I.
+  Qed.
+
+  Lemma kalman_step_spec s off : mspec cmdP_exact (kalman_step dbg s off) (fun _ => True).
+  Proof.
+    unfold kalman_step.
+    eapply mspec_bind; [apply mspec_lift with (Q := fun _ => True); auto|]. intros d _.
+    eapply mspec_bind; [apply (mspec_call cmdP_exact _ (fun _ => True)); simpl; auto|].
+    intros [t|] _; [|apply mspec_ret; exact I].
     eapply mspec_bind; [apply mspec_lift with (Q := fun _ => True); auto|]. intros run _.
-    assert (Hs3 : KInv (set_run s2 run)) by exact Hs2.
-    eapply mspec_bind with (Q1 := KInv).
-    { destruct (m_sync m); [apply absorb_with_spec | apply mspec_ret]; exact Hs3. }
-    intros s4 Hs4.
-    eapply mspec_bind with (Q1 := KInv).
-    { destruct (m_dly m); [apply absorb_with_spec | apply mspec_ret]; exact Hs4. }
-    intros s5 Hs5.
-    eapply mspec_bind with (Q1 := KInv).
-    { destruct (m_peer m); [| apply mspec_ret; exact Hs5].
-      eapply mspec_bind; [apply mspec_lift with (Q := fun _ => True); auto|]. intros v _.
-      apply mspec_ret. exact Hs5. }
-    intros s6 Hs6. apply kalman_steer_spec; exact Hs6.
-  Qed.
-
-  Lemma kalman_update_spec s :
-    KInv s -> mspec cmdP (kalman_update dbg cfg s) (fun r => KInv (fst r)).
-  Proof.
-    intros Hs. unfold kalman_update.
-    eapply mspec_bind; [apply change_frequency_spec; exact Hs|]. intros s' Hs'.
-    eapply mspec_bind; [apply mspec_lift with (Q := fun _ => True); auto|]. intros md _.
-    apply mspec_ret. exact Hs'.
-  Qed.
-
-  Lemma kalman_demobilize_spec s :
-    KInv s -> mspec cmdP (kalman_demobilize dbg cfg s) (fun _ => True).
-  Proof.
-    intros Hs. unfold kalman_demobilize.
-    eapply mspec_bind; [apply change_frequency_spec; exact Hs|]. intros s' _.
+    eapply mspec_bind; [apply mspec_lift with (Q := fun _ => True); auto|]. intros wan _.
     apply mspec_ret. exact I.
   Qed.
 
-  Lemma kalman_new_inv s : kalman_new cfg = Ok s -> KInv s.
-  Proof. unfold kalman_new. intros H. ok_inv H. exact I. Qed.
-End KalmanInv.
+  Ltac step_true :=
+    eapply mspec_bind with (Q1 := fun _ => True);
+    [ first [ apply mspec_lift; auto | apply change_frequency_spec | apply kalman_step_spec
+            | apply ensure_freq_init_spec | apply mspec_ret; exact I ] | intros ? _ ].
+
+  Lemma absorb_with_spec s h z : mspec cmdP_exact (absorb_with cfg s h z) (fun _ => True).
+  Proof. unfold absorb_with. step_true. step_true. apply mspec_ret; exact I. Qed.
+
+  Lemma kalman_steer_spec s : mspec cmdP_exact (kalman_steer dbg cfg s) (fun _ => True).
+  Proof.
+    unfold kalman_steer. destruct (_ <. _).
+    - step_true. step_true. step_true. apply mspec_ret; exact I.
+    - step_true. step_true. apply mspec_ret; exact I.
+  Qed.
+
+  Lemma kalman_measurement_spec s m :
+    mspec cmdP_exact (kalman_measurement exp_fn dbg cfg s m) (fun _ => True).
+  Proof.
+    unfold kalman_measurement.
+    destruct (negb _); [apply mspec_ret; exact I|].
+    step_true. step_true. step_true.
+    eapply mspec_bind with (Q1 := fun _ => True).
+    { destruct (m_sync m); [apply absorb_with_spec | apply mspec_ret; exact I]. } intros s4 _.
+    eapply mspec_bind with (Q1 := fun _ => True).
+    { destruct (m_dly m); [apply absorb_with_spec | apply mspec_ret; exact I]. } intros s5 _.
+    eapply mspec_bind with (Q1 := fun _ => True).
+    { destruct (m_peer m); [| apply mspec_ret; exact I]. step_true. apply mspec_ret; exact I. }
+    intros s6 _. apply kalman_steer_spec.
+  Qed.
+
+  Definition kalman_event (s : kstate) (e : event) : CM kstate :=
+    match e with
+    | EMeas m => let* (s', _) := kalman_measurement exp_fn dbg cfg s m in mret s'
+    | EUpdate => let* (s', _) := kalman_update dbg cfg s in mret s'
+    | EDemob => let* _ := kalman_demobilize dbg cfg s in mlift (kalman_new cfg)
+    end.
+
+  (* the commands of each event, in order of issue; stops after a panic *)
+  Fixpoint kalman_trace (s : kstate) (es : list event) (rs : list reply) : list (list cmd) :=
+    match es with
+    | [] => []
+    | e :: es' =>
+        let '(c', r) := kalman_event s e (mk_clk rs []) in
+        rev (c_log c') ::
+        match r with
+        | Ok s' => kalman_trace s' es' (c_replies c')
+        | Panic _ => []
+        end
+    end.
+
+  Lemma kalman_event_spec s e : mspec cmdP_exact (kalman_event s e) (fun _ => True).
+  Proof.
+    destruct e as [m| |]; unfold kalman_event.
+    - eapply mspec_bind with (Q1 := fun _ => True); [apply kalman_measurement_spec|].
+      intros [s' u] _. apply mspec_ret; exact I.
+    - unfold kalman_update.
+      eapply mspec_bind with (Q1 := fun _ => True); [|intros [s' u] _; apply mspec_ret; exact I].
+      step_true. step_true. apply mspec_ret; exact I.
+    - unfold kalman_demobilize.
+      eapply mspec_bind with (Q1 := fun _ => True); [|intros _ _; apply mspec_lift; auto].
+      eapply mspec_bind with (Q1 := fun _ => True);
+        [apply change_frequency_spec | intros ? _; apply mspec_ret; exact I].
+  Qed.
+
+  (** freq_cmd_bounded, EXACT: along every trajectory (any events, any clock replies, any
+      length, any exp, either build mode, ANY estimator state -- also NaN / infinite
+      ones) every frequency command is finite and |f| <= max_freq_offset. *)
+  Theorem freq_cmd_bounded s es rs : Forall (Forall cmdP_exact) (kalman_trace s es rs).
+  Proof.
+    revert s rs. induction es as [|e es IH]; intros s rs; simpl; [constructor|].
+    pose proof (kalman_event_spec s e (mk_clk rs []) ltac:(constructor)) as [H1 _].
+    destruct (kalman_event s e (mk_clk rs [])) as [c' r]. simpl in H1.
+    constructor; [apply Forall_rev; exact H1 | destruct r; [apply IH | constructor]].
+  Qed.
+End KalmanExact.
+
+(* link between the trace used in the theorems and the observations compared with the
+   implementation: the commands of [run_events] are exactly those of [kalman_trace] *)
+Lemma run_events_trace exp_fn dbg cfg s es rs :
+  map o_cmds (run_events exp_fn dbg (FKalman cfg) (SK s) es rs)
+  = map (map ocmd_of) (kalman_trace exp_fn dbg cfg s es rs).
+Proof.
+  revert s rs. induction es as [|e es IH]; intros s rs; [reflexivity|].
+  cbn [run_events kalman_trace]. unfold run_event, kalman_event.
+  destruct e as [m| |]; unfold mbind, mret, mlift.
+  - destruct (kalman_measurement exp_fn dbg cfg s m (mk_clk rs [])) as [c' [[s' u]|]]; cbn; [|reflexivity].
+    now rewrite IH.
+  - destruct (kalman_update dbg cfg s (mk_clk rs [])) as [c' [[s' u]|]]; cbn; [|reflexivity].
+    now rewrite IH.
+  - destruct (kalman_demobilize dbg cfg s (mk_clk rs [])) as [c' [[]|]]; cbn; [|reflexivity].
+    destruct (kalman_new cfg) as [s'|]; cbn; [|reflexivity]. now rewrite IH.
+Qed.
 
 (** ---- exact description of the commands issued by the steering code ---- *)
 Section KalmanCmds.
   Variable dbg : bool.
   Variable cfg : kcfg.
 
-  Lemma change_frequency_log s t c :
-    c_log (fst (change_frequency dbg cfg s t c)) =
+  (* what change_frequency adds to the command log *)
+  Definition freq_cmds (s : kstate) (t : float) (l : list cmd) : list cmd :=
     match k_cur s with
-    | Some cur => SetFreq (freq_command cfg s cur t) :: c_log c
-    | None => c_log c
+    | Some cur =>
+        match freq_command cfg s cur t with
+        | Some f => if is_fin f then SetFreq f :: l else l
+        | None => l
+        end
+    | None => l
     end.
+
+  Lemma change_frequency_log s t c :
+    c_log (fst (change_frequency dbg cfg s t c)) = freq_cmds s t (c_log c).
   Proof.
-    unfold change_frequency, freq_command. destruct (k_cur s) as [cur|]; [|reflexivity].
+    unfold change_frequency, freq_cmds. destruct (k_cur s) as [cur|]; [|reflexivity].
+    destruct (freq_command cfg s cur t) as [f|]; [|reflexivity].
+    destruct (is_fin f); [|reflexivity].
     unfold mbind, mcall, clk_call, mlift, mret.
     destruct (c_replies c) as [|[time|] rs]; simpl; try reflexivity.
     destruct (base_freq_steer dbg cfg (k_run s) _ time (k_wander s)); simpl; [|reflexivity].
@@ -301,16 +295,12 @@ Section KalmanCmds.
   (** steer_decision / step_cmd: [steer] steps the clock iff NOT |offset estimate| <
       step threshold (so also when the estimate is NaN, where from_seconds panics
       before any command), the step is exactly from_seconds(-offset estimate), and
-      otherwise it issues exactly the frequency command of [change_frequency]. *)
+      otherwise it issues at most the one frequency command of [change_frequency]. *)
   Theorem steer_decision s c :
     c_log (fst (kalman_steer dbg cfg s c)) =
     if fabs (base_offset (k_run s)) <. dur_seconds (c_step_threshold cfg) then
       match steer_target cfg s with
-      | Ok t =>
-          match k_cur s with
-          | Some cur => SetFreq (freq_command cfg s cur t) :: c_log c
-          | None => c_log c
-          end
+      | Ok t => freq_cmds s t (c_log c)
       | Panic _ => c_log c
       end
     else
@@ -334,11 +324,7 @@ Section KalmanCmds.
       frequency command; a freshly created filter (cur_frequency = None) issues
       nothing on [update] or [demobilize]. *)
   Theorem demobilize_log s c :
-    c_log (fst (kalman_demobilize dbg cfg s c)) =
-    match k_cur s with
-    | Some cur => SetFreq (freq_command cfg s cur fzero) :: c_log c
-    | None => c_log c
-    end.
+    c_log (fst (kalman_demobilize dbg cfg s c)) = freq_cmds s fzero (c_log c).
   Proof.
     unfold kalman_demobilize.
     transitivity (c_log (fst (change_frequency dbg cfg s fzero c))); [|apply change_frequency_log].
@@ -346,16 +332,19 @@ Section KalmanCmds.
   Qed.
 
   Theorem update_log s c :
-    c_log (fst (kalman_update dbg cfg s c)) =
-    match k_cur s with
-    | Some cur => SetFreq (freq_command cfg s cur fzero) :: c_log c
-    | None => c_log c
-    end.
+    c_log (fst (kalman_update dbg cfg s c)) = freq_cmds s fzero (c_log c).
   Proof.
     unfold kalman_update.
     rewrite (bind_ret_log (change_frequency dbg cfg s fzero) (fun s' => mean_delay_update dbg s')
                           (fun s' md => (s', (false, md)))).
     apply change_frequency_log.
+  Qed.
+
+  Lemma freq_cmds_at_most_one s t l :
+    freq_cmds s t l = l \/ exists f, freq_cmds s t l = SetFreq f :: l.
+  Proof.
+    unfold freq_cmds. destruct (k_cur s); auto. destruct (freq_command cfg s f t) as [g|]; auto.
+    destruct (is_fin g); eauto.
   Qed.
 
   Theorem fresh_filter_quiet s c :
@@ -365,146 +354,97 @@ Section KalmanCmds.
     c_log (fst (kalman_demobilize dbg cfg s c)) = c_log c.
   Proof.
     intros H. assert (Hc : k_cur s = None) by (unfold kalman_new in H; ok_inv H; reflexivity).
-    rewrite update_log, demobilize_log, Hc. auto.
-  Qed.
-
-  (* a filter stays silent on update/demobilize until a measurement has set cur_frequency,
-     and an update never creates one *)
-  Lemma update_keeps_cur_none s c :
-    k_cur s = None -> kalman_update dbg cfg s c = (c, obind (mean_delay_update dbg s) (fun md => Ok (s, (false, md)))).
-  Proof.
-    intros H. unfold kalman_update, mbind. rewrite change_frequency_cur_none by exact H.
-    unfold mlift, mret. destruct (mean_delay_update dbg s); reflexivity.
+    rewrite update_log, demobilize_log. unfold freq_cmds. rewrite Hc. auto.
   Qed.
 End KalmanCmds.
 
-(** ---- trajectories: every command of every event ---- *)
-Section KalmanTrace.
-  Variable exp_fn : float -> float.
+(** ---- the basic filter (code after fix 3d2d7f9) ---- *)
+Section BasicExact.
   Variable dbg : bool.
-  Variable cfg : kcfg.
 
-  Definition kalman_event (s : kstate) (e : event) : CM kstate :=
-    match e with
-    | EMeas m => let* (s', _) := kalman_measurement exp_fn dbg cfg s m in mret s'
-    | EUpdate => let* (s', _) := kalman_update dbg cfg s in mret s'
-    | EDemob => let* _ := kalman_demobilize dbg cfg s in mlift (kalman_new cfg)
-    end.
+  Definition cmdP_fin (c : cmd) : Prop :=
+    match c with SetFreq f => is_fin f = true | StepClock _ => True end.
 
-  (* the commands of each event, in order of issue; stops after a panic *)
-  Fixpoint kalman_trace (s : kstate) (es : list event) (rs : list reply) : list (list cmd) :=
-    match es with
+  (** basic_finite: every command of every measurement, from ANY state, is finite. *)
+  Theorem basic_finite s m : mspec cmdP_fin (basic_measurement dbg s m) (fun _ => True).
+  Proof.
+    unfold basic_measurement.
+    destruct (m_offset m) as [offset|]; [|apply mspec_ret; exact I].
+    eapply mspec_bind with (Q1 := fun _ => True); [apply mspec_lift; auto|]. intros aoff _.
+    destruct (ONE_SEC <? aoff).
+    { eapply mspec_bind with (Q1 := fun _ => True); [apply mspec_lift; auto|]. intros noff _.
+      eapply mspec_bind with (Q1 := fun _ => True);
+        [apply (mspec_call cmdP_fin _ (fun _ => True)); simpl; auto|]. intros _ _.
+      apply mspec_ret; exact I. }
+    eapply mspec_bind with (Q1 := fun _ => True); [apply mspec_lift; auto|]. intros [[clamped oc] corr] _.
+    eapply mspec_bind with (Q1 := fun _ => True).
+    { destruct (b_last_step s) as [[[lt lo] lc]|].
+      - eapply mspec_bind with (Q1 := fun _ => True); [apply mspec_lift; auto|]. intros [d2 d3] _.
+        destruct (d3 <=? 0); [apply mspec_ret; exact I|].
+        eapply mspec_bind with (Q1 := fun _ => True); [apply mspec_lift; auto|]. intros [fcorr fc] _.
+        apply mspec_ret; exact I.
+      - eapply mspec_bind with (Q1 := fun _ => True);
+          [apply (mspec_call cmdP_fin _ (fun _ => True)); simpl; auto|]. intros _ _.
+        apply mspec_ret; exact I. }
+    intros [[freq_corr fc] cur0] _.
+    eapply mspec_bind with (Q1 := fun _ => True);
+      [apply (mspec_call cmdP_fin _ (fun _ => True)); simpl; auto|]. intros _ _.
+    destruct (is_fin (cur0 +. freq_corr)) eqn:Ef; [|apply mspec_ret; exact I].
+    eapply mspec_bind with (Q1 := fun _ => True);
+      [apply (mspec_call cmdP_fin _ (fun _ => True)); simpl; auto|]. intros r _.
+    apply mspec_ret; exact I.
+  Qed.
+
+  (* trajectories of the basic filter *)
+  Fixpoint basic_trace (s : bstate) (ms : list meas) (rs : list reply) : list (list cmd) :=
+    match ms with
     | [] => []
-    | e :: es' =>
-        let '(c', r) := kalman_event s e (mk_clk rs []) in
+    | m :: ms' =>
+        let '(c', r) := basic_measurement dbg s m (mk_clk rs []) in
         rev (c_log c') ::
         match r with
-        | Ok s' => kalman_trace s' es' (c_replies c')
+        | Ok (s', _) => basic_trace s' ms' (c_replies c')
         | Panic _ => []
         end
     end.
 
-  Hypothesis Hb : bound_ok (c_max_freq_offset cfg).
-
-  Lemma kalman_event_spec s e :
-    KInv cfg s -> mspec (cmdP cfg) (kalman_event s e) (KInv cfg).
+  Theorem basic_finite_trace s ms rs : Forall (Forall cmdP_fin) (basic_trace s ms rs).
   Proof.
-    intros Hs. destruct e as [m| |]; unfold kalman_event.
-    - eapply mspec_bind; [apply kalman_measurement_spec; assumption|].
-      intros [s' u] H. apply mspec_ret. exact H.
-    - eapply mspec_bind; [apply kalman_update_spec; assumption|].
-      intros [s' u] H. apply mspec_ret. exact H.
-    - eapply mspec_bind; [apply kalman_demobilize_spec; assumption|].
-      intros _ _. apply mspec_lift. intros s' H. eapply kalman_new_inv; eassumption.
+    revert s rs. induction ms as [|m ms IH]; intros s rs; simpl; [constructor|].
+    pose proof (basic_finite s m (mk_clk rs []) ltac:(constructor)) as [H1 _].
+    destruct (basic_measurement dbg s m (mk_clk rs [])) as [c' r]. simpl in H1.
+    constructor; [apply Forall_rev; exact H1 | destruct r as [[s' u]|]; [apply IH | constructor]].
   Qed.
+End BasicExact.
 
-  (** freq_cmd_bounded, the part that is TRUE of today's code: along every
-      trajectory (any events, any clock replies, any length), every frequency
-      command is NaN or finite with |f| <= next_up(max_freq_offset). *)
-  Theorem freq_cmd_bounded_partial s es rs :
-    KInv cfg s -> Forall (Forall (cmdP cfg)) (kalman_trace s es rs).
-  Proof.
-    revert s rs. induction es as [|e es IH]; intros s rs Hs; simpl; [constructor|].
-    pose proof (kalman_event_spec s e Hs (mk_clk rs []) ltac:(constructor)) as [H1 H2].
-    destruct (kalman_event s e (mk_clk rs [])) as [c' r]. simpl in H1, H2.
-    constructor.
-    - apply Forall_rev. exact H1.
-    - destruct r as [s'|]; [apply IH; exact H2 | constructor].
-  Qed.
-End KalmanTrace.
-
-(** When is the command NaN?  Only when the frequency estimate is NaN (the
-    steering target is finite and the current frequency is finite). *)
-Lemma c_1e6_fin : is_fin c_1e6 = true. Proof. reflexivity. Qed.
-Lemma FR_c_1e6 : FR c_1e6 <> 0%R.
-Proof.
-  unfold FR, P2B.
-  replace c_1e6 with (FP.B2Prim (@B754_finite FloatOps.prec FloatOps.emax false 8589934592000000 (-33) eq_refl)).
-  2:{ apply FloatAxioms.Prim2SF_inj. rewrite FP.Prim2SF_B2Prim. reflexivity. }
-  rewrite FP.Prim2B_B2Prim. unfold B2R. apply Rgt_not_eq. apply F2R_gt_0. reflexivity.
-Qed.
-
-Theorem freq_cmd_nan_only_if cfg s cur t :
-  bound_ok (c_max_freq_offset cfg) ->
-  is_fin cur = true -> (fabs cur <=. PrimFloat.next_up (c_max_freq_offset cfg)) = true ->
-  is_fin t = true ->
-  FloatBits.is_nan (freq_command cfg s cur t) = true ->
-  FloatBits.is_nan (base_freq_offset (k_run s)) = true.
-Proof.
-  intros Hb Hc Hle Ht Hn. unfold freq_command in Hn.
-  apply freq_command_nan in Hn; auto.
-  rewrite sub_nan_fin_l in Hn by exact Ht.
-  rewrite mul_nan_iff in Hn; [exact Hn | apply c_1e6_fin | apply FR_c_1e6].
-Qed.
-
-(** ---- F12: the exact bound is refuted ---- *)
+(** ---- HISTORIC: why the fixes were needed (statements about the pre-fix formulas) ---- *)
+(* F12: cur + clamp_adjustment(cur, err, bound) can be next_up(bound) *)
 Definition f12_cur : float := Eval vm_compute in fb 13868707814713838335.   (* -376.76736994010565 *)
 Definition f12_bound : float := Eval vm_compute in fb 4645744490609377280.  (* 400.0 *)
-Lemma clamp_overshoot_witness :
+Lemma prefix_clamp_overshoot_witness :
   let f := f12_cur +. clamp_adjustment f12_cur (fb 4652007308841189376) f12_bound in  (* error = +1000 ppm *)
-  is_fin f = true /\ (fabs f <=. f12_bound) = false /\ bits_of_f f = bits_of_f (PrimFloat.next_up f12_bound).
+  is_fin f = true /\ (fabs f <=. f12_bound) = false /\ bits_of_f f = bits_of_f (PrimFloat.next_up f12_bound)
+  /\ fclamp f (-. f12_bound) f12_bound = Some f12_bound.
 Proof. vm_compute. repeat split. Qed.
 
-(* the stream found by the harness on the real filter (harness case index 1) *)
-Definition f12_case : case :=
-  ((FKalman (kcfg_bits (zs 4294967000000000) 0 (zd 1 3978248573572612096) (zd 1 29554872554618880) (zd 1 34058472181989376) (zs 4547007122018943789) (zs 4607182418800017408) (zs 4493980547052782275) (zs 4599676419421066581) (zs 4604180019048437077) 127 (zs 858993459200000000) 4 8 (zd 1 0))), false, [M (zd 1583248377 3317777848642568192) (Some (zneg (zd 6 4440849437641468551))) None None (Some (zneg (zd 6 4439211298460068487))) None; M (zd 1583248384 3413742815193639424) None (Some (zs 1630658236121896)) None None (Some (zneg (zs 3358380429074434))); M (zd 1583248385 2828588636766251520) (Some (zneg (zs 1804703260129583))) None None (Some (zneg (zs 166564078729519))) None; M (zd 1583248385 3097025514400426496) None (Some (zs 1582696903900490)) None None (Some (zneg (zs 3463845198520860))); M (zd 1583248386 2511871335973038592) (Some (zneg (zs 1199614204307916))) None None (Some (zs 438524977092148)) None; M (zd 1583248386 2780308655988845056) None (Some (zs 1646928924438780)) None None (Some (zneg (zs 2896881132158753))); M (zd 1583248387 2195154477561457152) (Some (zneg (zs 87096931536632))) None None (Some (zs 1551042249863432)) None; M (zd 1583248387 2463594039550192128) None (Some (zs 1666055150861106)) None None (Some (zneg (zs 1714199243200828))); M (zd 1583248388 1878439861122804224) (Some (zs 709475476234182)) None None (Some (zs 2347614657634246)) None; M (zd 1583248388 2146878065901873664) None (Some (zs 1566328222529208)) None None (Some (zneg (zs 1051431951974653))); M (zd 1583248389 1561723887474485760) (Some (zs 2215119676331534)) None None (Some (zs 3853258857731598)) None], [Some (zd 1583248377 3317780259412006404); Some (zd 1583248384 3145305539420291076); Some (zd 1583248384 3413745225963077636); Some (zd 1583248385 2828591047535689732); Some (zd 1583248385 3097027925169864708); Some (zd 1583248386 2511873746742476804); Some (zd 1583248386 2780311066758283268); Some (zd 1583248387 2195156888330895364); Some (zd 1583248387 2463596450319630340); Some (zd 1583248388 1878442271892242436); Some (zd 1583248388 2146880476671311876); Some (zd 1583248389 1561726298243923972)], [Ob [OF 0; OS (zd 6 4439211298435672576)] (Some (false, (Some 0))) (Some (0, 0)); Ob [OF (zs 4600694714129455752)] (Some (true, (Some (zs 1000000000)))) (Some ((zneg (zs 69000000000)), (zs 1000000000))); Ob [OF (zd 1 7150752226414532)] (Some (true, (Some (zs 1000000000)))) (Some ((zneg (zs 12847000000000)), (zs 1000000000))); Ob [OF (zd 1 27314732659454312)] (Some (true, (Some (zs 2000000000)))) (Some ((zneg (zs 304053000000000)), (zs 2000000000))); Ob [OF (zd 1 21148286325131532)] (Some (true, (Some (zs 2000000000)))) (Some ((zs 59797000000000), (zs 2000000000))); Ob [OF (zd 1 32361836920434716)] (Some (true, (Some (zs 2000000000)))) (Some ((zneg (zs 794899000000000)), (zs 2000000000))); Ob [OF (zd 1 8598445123502464)] (Some (true, (Some (zs 3000000000)))) (Some ((zs 574757000000000), (zs 3000000000))); Ob [OF (zd 1 29983531520154154)] (Some (true, (Some (zs 3000000000)))) (Some ((zneg (zs 243125000000000)), (zs 3000000000))); Ob [OF (zd 3 26164412081961548)] (Some (true, (Some (zs 4000000000)))) (Some ((zs 1150708000000000), (zs 4000000000))); Ob [OF (zd 1 34058472181989377)] (Some (true, (Some (zs 5000000000)))) (Some ((zneg (zs 1051428000000000)), (zs 5000000000))); Ob [OF (zd 1 29554872554618882)] (Some (true, (Some 0))) (Some ((zs 3853259000000000), 0))]).
-Lemma freq_cmd_bounded_refuted :
-  valid_cfg (match case_kind f12_case with FKalman c => c | _ => kcfg_bits 0 0 0 0 0 0 0 0 0 0 0 0 0 0 0 end) = true /\
-  obs_list_eqb (run_case f12_case) (case_obs f12_case) = true /\
-  ok_C13 (case_kind f12_case) (case_events f12_case) (run_case f12_case) = false /\
-  kf_C13 f12_case = 1.
-Proof. vm_compute. repeat split. Qed.
+(* F13: the frequency-correction formula on two zero intervals is NaN; the repaired
+   measurement does not evaluate it when the master interval is <= 0 *)
+Lemma prefix_basic_zero_over_zero :
+  match basic_freq_corr (basic_new (fb 4602678819172646912)) 0 0 with
+  | Ok (fcorr, fc) => FloatBits.is_nan fcorr && FloatBits.is_nan fc
+  | Panic _ => false
+  end = true.
+Proof. vm_compute. reflexivity. Qed.
 
-(** ---- F13: the basic filter commands NaN ---- *)
-Definition f13_case : case :=
-  ((FBasic (fb (zs 4602678819172646912))), false, [M (zd 1583248376 3902932027069956096) (Some 0) None None (Some 0) None; M (zd 1583248376 3902932027069956096) (Some 0) None None (Some 0) None], [Some (zd 1583248376 3902932027069956096); Some (zd 1583248376 3902932027069956096); Some (zd 1583248376 3902932027069956096); Some (zd 1583248376 3902932027069956096); Some (zd 1583248376 3902932027069956096)], [Ob [OF 0; OS 0; OF 0] (Some (false, None)) (Some (0, 0)); Ob [OS 0; OF (zd 1 4609434218613702656)] (Some (false, None)) (Some (0, 0))]).
-Lemma basic_finite_refuted :
-  obs_list_eqb (run_case f13_case) (case_obs f13_case) = true /\
-  ok_C13 (case_kind f13_case) (case_events f13_case) (run_case f13_case) = false /\
-  kf_C13 f13_case = 2.
-Proof. vm_compute. repeat split. Qed.
-
-Corollary freq_cmd_bounded_from_new exp_fn dbg cfg s es rs :
-  bound_ok (c_max_freq_offset cfg) -> kalman_new cfg = Ok s ->
-  Forall (Forall (cmdP cfg)) (kalman_trace exp_fn dbg cfg s es rs).
-Proof. intros Hb Hn. apply freq_cmd_bounded_partial; [exact Hb | eapply kalman_new_inv; eassumption]. Qed.
-
-(* link between the trace used in the theorems and the observations compared with the
-   implementation: the commands of [run_events] are exactly those of [kalman_trace] *)
-Lemma run_events_trace exp_fn dbg cfg s es rs :
-  map o_cmds (run_events exp_fn dbg (FKalman cfg) (SK s) es rs)
-  = map (map ocmd_of) (kalman_trace exp_fn dbg cfg s es rs).
-Proof.
-  revert s rs. induction es as [|e es IH]; intros s rs; [reflexivity|].
-  cbn [run_events kalman_trace]. unfold run_event, kalman_event.
-  destruct e as [m| |]; unfold mbind, mret, mlift.
-  - destruct (kalman_measurement exp_fn dbg cfg s m (mk_clk rs [])) as [c' [[s' u]|]]; cbn; [|reflexivity].
-    now rewrite IH.
-  - destruct (kalman_update dbg cfg s (mk_clk rs [])) as [c' [[s' u]|]]; cbn; [|reflexivity].
-    now rewrite IH.
-  - destruct (kalman_demobilize dbg cfg s (mk_clk rs [])) as [c' [[]|]]; cbn; [|reflexivity].
-    destruct (kalman_new cfg) as [s'|]; cbn; [|reflexivity]. now rewrite IH.
-Qed.
+(* the two regression streams of the harness (indices 0 and 1) on the repaired model *)
+Definition f13_events : list event :=
+  [M (1000 * NS_PER_S * FRAC) (Some 0) None None (Some 0) None;
+   M (1000 * NS_PER_S * FRAC) (Some 0) None None (Some 0) None].
+Lemma f13_stream_now_finite :
+  map o_cmds (run_filter exp_eval true (FBasic (fb 4602678819172646912)) f13_events
+                (repeat (Some (1000 * NS_PER_S * FRAC)) 6))
+  = [[OF 0; OS 0; OF 0]; [OS 0; OF 0]].
+Proof. vm_compute. reflexivity. Qed.
 
 (** step_cmd, magnitude clause.  NOT proved in general (it needs an error analysis
     of Duration::seconds / Duration::from_seconds); the oracle [step_ok] checks it on
